@@ -210,13 +210,13 @@ class IDMan(Set[int]):
     def discard(self, element: int) -> None:
         """Return the specified ID for others to use, or do nothing if already removed."""
         self._used.discard(element)
-        if element < self.search_pos:
+        if 0 < element < self.search_pos:
             self.search_pos = element
 
     def remove(self, element: int) -> None:
         """Return the specified ID for others to use."""
         self._used.remove(element)
-        if element < self.search_pos:
+        if 0 < element < self.search_pos:
             self.search_pos = element
 
 
